@@ -120,6 +120,17 @@ theorem c16_bounded (d : Nat) (is : List In) : (stored d is).length ≤ d := by
   have := hinv.hl
   omega
 
+
+-- OBLIGATION c16_callers : when several transactions call read (resp. write) in one cycle, at most one of the callers executes, it is one that attempted, and it gets exactly the single-port outcome of the step — so the theorems above hold for the union of all callers (every value delivered to exactly one reader)
+theorem c16_callers (d : Nat) (s : State) (ow or : List Nat) (i : MIn) (k1 k2 v1 v2 : Nat) :
+    let e := eff ow or i
+    let o := (step d s ⟨e.w, e.r, e.p, e.c⟩).2
+    ((onlyTo i.ws.length e.gr o.rd)[k1]? = some (some v1) → (onlyTo i.ws.length e.gr o.rd)[k2]? = some (some v2) →
+        k1 = k2 ∧ o.rd = some v1 ∧ i.rs.getD k1 false = true) ∧
+    ((onlyTo i.ws.length e.gw o.wr)[k1]? = some (some v1) → (onlyTo i.ws.length e.gw o.wr)[k2]? = some (some v2) →
+        k1 = k2 ∧ o.wr = some v1 ∧ (i.ws.map Option.isSome).getD k1 false = true) :=
+  ⟨fun h1 h2 => callers_exclusive h1 h2, fun h1 h2 => callers_exclusive h1 h2⟩
+
 /-- non-vacuity: depth 3 (not a power of two): push to full, blocked push with a read, read+write
     in one cycle, peek, clear racing with a write, reuse after the clear -/
 example :
@@ -145,3 +156,4 @@ end TxV.Stack
 #print axioms TxV.Stack.c16_ready
 #print axioms TxV.Stack.c16_clear
 #print axioms TxV.Stack.c16_bounded
+#print axioms TxV.Stack.c16_callers
